@@ -272,9 +272,21 @@ func run(t *testing.T, tape *simrt.Tape) *common.Outcome {
 		exact, allFail, latency, stall, fdCap = true, true, false, 0, 0
 		perPeerCap = 1 + g.Int(2)
 	}
+	// "back-off rejoin" stratum: round 1 leaves address B of p0 in back-off (the caller gives up after 1-2 s, so
+	// the hanging address A is not); round 2: a first caller is refused B and waits on A (the worker stays
+	// alive), a second caller joins either after B's back-off has ended or with WithForceDirectDial: B is
+	// eligible for it and must reach a transport.
+	backoffRejoin := !slowWorker && g.Chance(1, 8)
+	if backoffRejoin {
+		exact, allFail, latency, stall, fdCap = true, true, false, 0, 0
+		perPeerCap = []int{8, 2, 3, 4}[g.Int(4)]
+	}
 	nAddr := []int{g.Range(0, 8), g.Weighted(3, 2, 2, 1)}
 	if slowWorker && nAddr[0] > 5 {
 		nAddr[0] = 5
+	}
+	if backoffRejoin {
+		nAddr[0] = g.Int(2)
 	}
 	for pi := range w.ids {
 		w.peers = append(w.peers, w.genPeer(g, pi, nAddr[pi], exact, noise, allFail, ownAddr))
@@ -282,8 +294,14 @@ func run(t *testing.T, tape *simrt.Tape) *common.Outcome {
 	if slowWorker {
 		w.plantSlowName(g, w.peers[0])
 	}
+	if backoffRejoin {
+		w.plantBackoffPair(g, w.peers[0])
+	}
 	nRounds := 1 + g.Int(2)
 	gap := []time.Duration{time.Second, 4 * time.Second, 6 * time.Second, 30 * time.Second}[g.Int(4)]
+	if backoffRejoin {
+		nRounds, gap = 2, time.Second
+	}
 	keepConns := g.Chance(1, 4)
 	var rounds [][]*caller
 	var callers []*caller
@@ -319,6 +337,24 @@ func run(t *testing.T, tape *simrt.Tape) *common.Outcome {
 			}
 			cs[1].peer, cs[1].start, cs[1].ctxKind, cs[1].ctxDur = 0, startGrid[2+g.Int(4)], 0, 0
 		}
+		if backoffRejoin {
+			if r == 0 {
+				cs = cs[:1]
+				*cs[0] = caller{round: 0, idx: 0, peer: 0, ctxKind: 1, ctxDur: []time.Duration{time.Second, 2 * time.Second}[g.Int(2)]}
+			} else {
+				for len(cs) < 2 {
+					cs = append(cs, &caller{round: r, idx: len(cs)})
+				}
+				*cs[0] = caller{round: r, idx: 0, peer: 0}
+				c := caller{round: r, idx: 1, peer: 0}
+				if g.Bool() {
+					c.start = []time.Duration{5 * time.Second, 5250 * time.Millisecond}[g.Int(2)] // B's back-off (5 s) is over
+				} else {
+					c.start, c.forceDirect = []time.Duration{3 * time.Second, 4 * time.Second}[g.Int(2)], true // back-off does not apply
+				}
+				*cs[1] = c
+			}
+		}
 		rounds = append(rounds, cs)
 		for _, c := range cs {
 			callers = append(callers, c)
@@ -327,8 +363,8 @@ func run(t *testing.T, tape *simrt.Tape) *common.Outcome {
 			}
 		}
 	}
-	o.Logf("security=%s exact=%v allFail=%v stall=%d latency=%v perPeerCap=%d fdCap=%d rounds=%d gap=%v keepConns=%v slowWorker=%v",
-		secu, exact, allFail, stall, latency, perPeerCap, fdCap, nRounds, gap, keepConns, slowWorker)
+	o.Logf("security=%s exact=%v allFail=%v stall=%d latency=%v perPeerCap=%d fdCap=%d rounds=%d gap=%v keepConns=%v slowWorker=%v backoffRejoin=%v",
+		secu, exact, allFail, stall, latency, perPeerCap, fdCap, nRounds, gap, keepConns, slowWorker, backoffRejoin)
 	for _, ps := range w.peers {
 		o.Logf("peer p%d peerstore: %s", ps.idx, strings.Join(ps.raw, " "))
 		for _, tg := range ps.targets {
@@ -933,6 +969,9 @@ func checkCaller(o *common.Outcome, w *world, c *caller, callers []*caller, exac
 			}
 		}
 	}
+	if !timeless {
+		checkBackoffRefusals(o, w, c, callers, backoff)
+	}
 	if !exact || de.Skipped > 0 {
 		return
 	}
@@ -1028,6 +1067,87 @@ func checkLiveness(o *common.Outcome, w *world, callers []*caller, enabled bool,
 		if !errors.As(c.err, &de) || c.retAt > c.invAt+bound {
 			o.Violate("C05/all-scripts-fail-but-no-dial-error-in-time", "%s: every address of every peer fails within its script (ranking delays, resolution and script durations that can be ahead of this caller sum to <= %v), the caller's limit is %v after the invocation, yet it returned %v after with: %v",
 				c.name(), bound, c.limitAt()-c.invAt, c.retAt-c.invAt, c.err)
+		}
+	}
+}
+
+// (3d) a back-off refusal must be true. Back-off of an address starts when the worker learns of a failed
+// dial (at its end, or later by at most the name-resolution slack) and lasts, as documented at
+// DialBackoff.AddBackoff, BackoffBase + BackoffCoef * priorBackoffs^2, at most BackoffMax; with n failed
+// dials so far that is at most min(BackoffBase + n^2 * BackoffCoef, BackoffMax). A refusal is decided no
+// earlier than the caller's invocation (an address refused for an earlier request is forgotten by the
+// worker, so that "it doesn't inhibit new dial requests"), hence a caller invoked after that instant must
+// not be told "dial backoff". A WithForceDirectDial caller is exempt from back-off altogether; it can only
+// inherit a refusal of an address that a request WITHOUT the flag had scheduled and the worker had not
+// looked at yet, i.e. when such a caller was invoked less than (largest ranking delay + 250 ms per TCP
+// address of handshake wait + resolution slack + 1 s) before it, or after it.
+func checkBackoffRefusals(o *common.Outcome, w *world, c *caller, callers []*caller, refused map[string]bool) {
+	if len(refused) == 0 {
+		return
+	}
+	n := 0
+	for _, x := range callers {
+		if !x.probe {
+			n++
+		}
+	}
+	slack := dnsSlack(w, c.peer, n)
+	var addrs []string
+	for a := range refused {
+		addrs = append(addrs, a)
+	}
+	sort.Strings(addrs)
+	for _, a := range addrs {
+		fails := 0
+		var last time.Duration
+		for _, r := range w.recs {
+			tg := w.targets[r.addr]
+			if r.peer == c.peer && r.addr == a && r.end != 0 && r.end < c.ret && (!r.ok || (tg != nil && tg.script == sLie)) {
+				fails++
+				if r.endAt > last {
+					last = r.endAt
+				}
+			}
+		}
+		if fails == 0 {
+			continue // backoff-without-failure is reported by the eligibility oracle
+		}
+		if !c.forceDirect {
+			length := swarm.BackoffBase + time.Duration(fails*fails)*swarm.BackoffCoef
+			if length > swarm.BackoffMax {
+				length = swarm.BackoffMax
+			}
+			if over := last + slack + length; c.invAt > over+time.Second {
+				o.Violate("C05/backoff-refusal-after-backoff-ended", "%s (invoked %v) was told that %s is in back-off, but its last failed dial (of %d) ended at %v, so the back-off was over by %v at the latest",
+					c.name(), c.invAt, a, fails, last, over)
+			}
+			continue
+		}
+		var ms []ma.Multiaddr
+		tcps := 0
+		for _, tg := range w.peers[c.peer].targets {
+			ms = append(ms, ma.StringCast(tg.key))
+			if tg.kind == tTCP {
+				tcps++
+			}
+		}
+		window := time.Second + slack + time.Duration(tcps)*swarm.PublicTCPDelay
+		var maxDelay time.Duration
+		for _, ad := range swarm.DefaultDialRanker(ms) {
+			if ad.Delay > maxDelay {
+				maxDelay = ad.Delay
+			}
+		}
+		window += maxDelay
+		inherited := false
+		for _, x := range callers {
+			if x != c && x.peer == c.peer && x.invoked && !x.forceDirect && x.inv < c.ret && x.invAt+window >= c.invAt {
+				inherited = true
+			}
+		}
+		if !inherited {
+			o.Violate("C05/backoff-refusal-for-force-direct", "%s (WithForceDirectDial, invoked %v) was told that %s is in back-off; no caller without the flag was invoked within %v before it or while it waited",
+				c.name(), c.invAt, a, window)
 		}
 	}
 }
